@@ -5,7 +5,7 @@
    (Neo.import_links, an executable model of get_model's reconstruction from the two query results) are compared with
    the implementation on every generated case (Neo.neo_import_check), not proved. No database runs: the driver is
    replaced by a recording stand-in that answers the two fixed queries with Cypher's semantics. *)
-From MT Require Import Prelude Codec ModelIO Model ModelOps ModelInv ModelLoad ModelLoadThm Legacy PairLoad Neo.
+From MT Require Import Prelude Codec ModelIO Model ModelOps ModelInv ModelLoad ModelLoadThm Legacy PairLoad Neo NeoThm.
 
 Theorem C19_one_node_per_asset : forall c n,
   In n (export_nodes c) <-> exists a, In a (c_assets c) /\ n = (string_of_Z (ca_id a), ca_name a, ca_type a).
@@ -32,6 +32,38 @@ Theorem C19_import_rebuild : forall defaults c, loadable defaults c = true ->
   exists s, load defaults (pairs_content c) = (s, MOk) /\ MI s /\ content_of defaults (c_name c) s = pairs_content c.
 Proof. exact pairs_rebuild. Qed.
 Print Assumptions C19_import_rebuild.
+
+(* the reading of the two query results, in whatever order the database returns them: every link get_model adds comes
+   from two different relationships a -lf-> b and b -rf-> a that the language knows as the two fields of an association
+   of that class between the types of a and b, with the class's first field on the left; and no (class, left, right)
+   is added twice. (Completeness of the reading — every linked pair is found — is compared per case, Neo.neo_import_check.) *)
+Theorem C19_import_reading_sound : forall class_of first_field nodes rels links,
+  import_links class_of first_field nodes rels = Some links ->
+  (forall cls f1 x f2 y, In (cls, f1, x, f2, y) links ->
+     exists i j a lf rf b ta tb, i <> j /\ i < List.length rels /\ j < List.length rels /\
+       nth i rels ("", "", "")%string = (a, lf, b) /\ nth j rels ("", "", "")%string = (b, rf, a) /\
+       type_of_node nodes a = Some ta /\ type_of_node nodes b = Some tb /\ class_of lf rf ta tb = Some cls /\
+       ((seqb lf (first_field cls) = true /\ x = a /\ y = b /\ f1 = lf /\ f2 = rf) \/
+        (seqb lf (first_field cls) = false /\ x = b /\ y = a /\ f1 = rf /\ f2 = lf))) /\
+  NoDup (map key3 links).
+Proof. exact import_links_sound. Qed.
+Print Assumptions C19_import_reading_sound.
+
+(* ... and conversely every such pair of relationships is represented among the links (so the links are exactly the known
+   pairs, each once); the reading fails only when a row names a node the node query did not return *)
+Theorem C19_import_reading_complete : forall class_of first_field nodes rels links,
+  import_links class_of first_field nodes rels = Some links ->
+  forall i j a lf rf b ta tb cls, i <> j -> i < List.length rels -> j < List.length rels ->
+    nth i rels ("", "", "")%string = (a, lf, b) -> nth j rels ("", "", "")%string = (b, rf, a) ->
+    type_of_node nodes a = Some ta -> type_of_node nodes b = Some tb -> class_of lf rf ta tb = Some cls ->
+    In (oriented first_field cls a lf b) (map key3 links).
+Proof. exact import_links_complete. Qed.
+Print Assumptions C19_import_reading_complete.
+Theorem C19_import_reading_total : forall class_of first_field nodes rels,
+  (forall a lf rf b, In (a, lf, rf, b) (rows rels) -> type_of_node nodes a <> None /\ type_of_node nodes b <> None) ->
+  import_links class_of first_field nodes rels <> None.
+Proof. exact import_links_total. Qed.
+Print Assumptions C19_import_reading_total.
 
 (* non-vacuity, and the import on an example with two assets linked in both directions through a reflexive
    association and through a second association *)
